@@ -110,6 +110,11 @@ def generate(rng, tier):
             C = _tie(rng, thr)
         cont = rng.choice(["dense"] + SPARSE + ["dense"])
         cases.append(_mk(C, thr, rng.random() < 0.5, cont, True, fit=(thr == 1 and rng.random() < 0.6)))
+        if rng.random() < 0.25:
+            # non-canonical sparse input: COO whose counts are split over several stored unit entries
+            cs = _mk(C, thr, rng.random() < 0.5, rng.choice(["coo_matrix", "coo_array"]), True, fit=False)
+            cs["split"] = True
+            cases.append(cs)
     # TrimMapping on its own: injective (original, mapped) pairs in arbitrary order, and the empty list
     for k in range(40 if tier == "quick" else 400):
         m = rng.randrange(0, 7) if k else 0
@@ -144,6 +149,9 @@ def generate(rng, tier):
 
 
 # ----------------------------------------------------------------------------- implementation
+_SPLIT = [False]   # build COO input with every count split into unit entries (as assigns_to_counts returns it)
+
+
 def _container(name, C):
     import scipy.sparse as sp
     a = np.array(C, dtype=np.int64)
@@ -151,6 +159,15 @@ def _container(name, C):
         a = a.reshape((len(C), 0))
     if name == "dense":
         return a
+    if _SPLIT[0] and name in ("coo_matrix", "coo_array") and a.ndim == 2 and a.shape[0] == a.shape[1] and a.size:
+        rows, cols = [], []
+        for i in range(a.shape[0]):
+            for j in range(a.shape[1]):
+                rows += [i] * int(a[i, j])
+                cols += [j] * int(a[i, j])
+        order = np.random.RandomState(len(rows)).permutation(len(rows))
+        return getattr(sp, name)((np.ones(len(rows), dtype=np.int64), (np.array(rows, dtype=int)[order], np.array(cols, dtype=int)[order])),
+                                 shape=a.shape)
     return getattr(sp, name)(a)
 
 
@@ -200,6 +217,7 @@ def run_impl(c):
     if c.get("kind") == "tm":
         return {"main": _run_tm(c)}
     C, thr, ren, cont = c["C"], c["thr"], c["renumber"], c["cont"]
+    _SPLIT[0] = bool(c.get("split"))
     res = {"main": _trim(C, thr, ren, cont)}
     if c["extras"]:
         res["other"] = _trim(C, thr, not ren, cont)
@@ -410,6 +428,8 @@ def tags(c, r):
         return ["trim-mapping-alone"] + (["trim-mapping-empty"] if not c["pairs"] else [])
     C, thr = c["C"], c["thr"]
     t = ["renumber" if c["renumber"] else "in-place", "dense" if c["cont"] == "dense" else "sparse"]
+    if c.get("split"):
+        t.append("coo-split-entries")
     if c["cont"] != "dense":
         t.append("sparse:" + c["cont"])
     t.append("thr=%d" % thr)
@@ -452,7 +472,7 @@ def tags(c, r):
     return t
 
 
-ESSENTIAL_TAGS = ["renumber", "in-place", "dense", "sparse", "msm-fit", "tie-for-heaviest", "unique-heaviest",
+ESSENTIAL_TAGS = ["coo-split-entries", "renumber", "in-place", "dense", "sparse", "msm-fit", "tie-for-heaviest", "unique-heaviest",
                   "one-way-bridge", "isolated-state", "heaviest-not-largest", "heaviest-not-first",
                   "kept-ids-interleaved", "sub-threshold-count", "err-empty", "err-non-square", "already-connected", "trim-mapping-alone"]
 
